@@ -177,9 +177,9 @@ var c15RemotePool = []c15Codec{
 	{Kind: "audio", PT: 109, Name: "OPUS", Clock: 48000, Ch: 2, Fmtp: "minptime=10;useinbandfec=0"}, // case-changed, remapped, differing fmtp
 	{Kind: "audio", PT: 0, Name: "PCMU", Clock: 8000},
 	{Kind: "video", PT: 96, Name: "VP8", Clock: 90000, FB: []string{"nack", "nack pli", "transport-cc"}},
-	{Kind: "video", PT: 102, Name: "vp8", Clock: 90000, FB: []string{"goog-remb"}},                                   // collides with local H264 102
-	{Kind: "video", PT: 100, Name: "VP9", Clock: 90000, Fmtp: "profile-id=0", FB: []string{"nack pli", "nack"}},     // collides with local VP9 p2
-	{Kind: "video", PT: 98, Name: "VP9", Clock: 90000, Fmtp: "profile-id=1", FB: []string{"nack"}},                   // partial only
+	{Kind: "video", PT: 102, Name: "vp8", Clock: 90000, FB: []string{"goog-remb"}},                              // collides with local H264 102
+	{Kind: "video", PT: 100, Name: "VP9", Clock: 90000, Fmtp: "profile-id=0", FB: []string{"nack pli", "nack"}}, // collides with local VP9 p2
+	{Kind: "video", PT: 98, Name: "VP9", Clock: 90000, Fmtp: "profile-id=1", FB: []string{"nack"}},              // partial only
 	{Kind: "video", PT: 102, Name: "H264", Clock: 90000, Fmtp: "level-asymmetry-allowed=1;packetization-mode=1;profile-level-id=42001f", FB: []string{"nack", "ccm fir"}},
 	{Kind: "video", PT: 108, Name: "H264", Clock: 90000, Fmtp: "profile-level-id=42e01f;packetization-mode=0", FB: []string{"nack", "nack pli"}}, // remapped
 	{Kind: "video", PT: 96, Name: "H264", Clock: 90000, Fmtp: "packetization-mode=1;profile-level-id=640c1f", FB: []string{"nack"}},              // partial only, collides with local VP8
